@@ -10,7 +10,7 @@ from .values import OutsideSubset
 
 VERIF = api.VERIF
 PROP_MODULES = {
-    "C01": ["contracts.c01", "contracts.c01_bounded", "contracts.c15", "contracts.c18", "contracts.c02"],
+    "C01": ["contracts.c01", "contracts.c01b", "contracts.c01_bounded", "contracts.c15", "contracts.c18", "contracts.c02"],
     "C02": ["contracts.c02", "contracts.c02_bounded", "contracts.c15"],
     "C03": ["contracts.c03", "contracts.c03_bounded", "contracts.c06"],
     "C04": ["contracts.c04", "contracts.c05"],
